@@ -13,7 +13,12 @@ def main():
         print("refusing: /repo is not clean:\n" + st); sys.exit(2)
     r = subprocess.run(["git", "-C", "/repo", "apply", patch], capture_output=True, text=True)
     if r.returncode != 0:
-        print("patch does not apply to /repo:", r.stderr); sys.exit(2)
+        # the patch was written against an earlier /repo commit: three-way apply, then unstage
+        r = subprocess.run(["git", "-C", "/repo", "apply", "-3", patch], capture_output=True, text=True)
+        subprocess.run(["git", "-C", "/repo", "reset", "-q"])
+        if r.returncode != 0 or "conflict" in (r.stderr or "").lower():
+            subprocess.run(["git", "-C", "/repo", "checkout", "--", "."])
+            print("patch does not apply to /repo:", r.stderr); sys.exit(2)
     results = {}
     try:
         for c in checks:
